@@ -60,3 +60,42 @@ M('lri-pop-no-lock', 'C03', 'cacheutils.py',
 M('lri-setdefault-lock-released-early', 'C03', 'cacheutils.py',
   "    def setdefault(self, key, default=None):\n        with self._lock:\n            try:\n                return self[key]\n            except KeyError:\n                self.soft_miss_count += 1\n                self[key] = default\n                return default",
   "    def setdefault(self, key, default=None):\n        try:\n            return self[key]\n        except KeyError:\n            self.soft_miss_count += 1\n            self[key] = default\n            return default")
+
+# ---------------------------------------------------------------- C04
+M('atomic-save-no-fsync', 'C04', 'fileutils.py',
+  "            self.part_file.flush()\n            os.fsync(self.part_file.fileno())\n            self.part_file.close()",
+  "            self.part_file.flush()\n            self.part_file.close()")
+M('atomic-save-rename-before-close', 'C04', 'fileutils.py',
+  "            self.part_file.flush()\n            os.fsync(self.part_file.fileno())\n            self.part_file.close()\n        if exc_type:",
+  "            if exc_type is None:\n                atomic_rename(self.part_path, self.dest_path, overwrite=self.overwrite)\n                open(self.part_path, 'ab').close()\n            self.part_file.flush()\n            os.fsync(self.part_file.fileno())\n            self.part_file.close()\n        if exc_type:")
+M('atomic-save-fsync-before-flush', 'C04', 'fileutils.py',
+  "            self.part_file.flush()\n            os.fsync(self.part_file.fileno())\n",
+  "            os.fsync(self.part_file.fileno())\n            self.part_file.flush()\n")
+M('atomic-save-writes-dest-directly', 'C04', 'fileutils.py',
+  "            self.part_path = dest_path + '.part'\n",
+  "            self.part_path = dest_path + '.part'\n            if self.overwrite and not os.path.lexists(dest_path):\n                self.part_path = dest_path\n")
+M('atomic-save-copy-instead-of-rename', 'C04', 'fileutils.py',
+  "        if overwrite:\n            os.rename(src, dst)\n        else:\n            os.link(src, dst)\n            os.unlink(src)",
+  "        if overwrite:\n            import shutil\n            shutil.copyfile(src, dst)\n            os.unlink(src)\n        else:\n            os.link(src, dst)\n            os.unlink(src)")
+M('atomic-save-no-excl', 'C04', 'fileutils.py',
+  "        fd = os.open(self.part_path, self.open_flags, file_perms)",
+  "        fd = os.open(self.part_path, self.open_flags & ~os.O_EXCL, file_perms)")
+
+# ---------------------------------------------------------------- C05
+M('atomic-save-no-unlink-on-body-exc', 'C05', 'fileutils.py',
+  "        if exc_type:\n            if self.rm_part_on_exc:\n                try:\n                    os.unlink(self.part_path)",
+  "        if exc_type:\n            if self.rm_part_on_exc and exc_type is not OSError:\n                try:\n                    os.unlink(self.part_path)")
+M('atomic-save-overwrite-false-uses-rename', 'C05', 'fileutils.py',
+  "        else:\n            os.link(src, dst)\n            os.unlink(src)\n        return\n\n\n_atomic_rename",
+  "        else:\n            os.rename(src, dst)\n        return\n\n\n_atomic_rename")
+M('atomic-save-swallow-rename-error', 'C05', 'fileutils.py',
+  "                except Exception:\n                    pass  # avoid masking original error\n            raise  # could not save destination file",
+  "                except Exception:\n                    pass  # avoid masking original error\n            if self.overwrite:\n                raise  # could not save destination file")
+M('atomic-save-perms-ignore-replaced', 'C05', 'fileutils.py',
+  "                file_perms = stat.S_IMODE(stat_res.st_mode)\n",
+  "                file_perms = stat.S_IMODE(stat_res.st_mode) & ~0o022\n")
+M('atomic-save-overwrite-part-always', 'C05', 'fileutils.py',
+  "        if self.overwrite_part and os.path.lexists(self.part_path):",
+  "        if (self.overwrite_part or self.overwrite) and os.path.lexists(self.part_path):")
+# (a "late refusal" mutant - dropping the early overwrite=False check so that the link() refuses
+#  instead - was tried and is not listed: it satisfies the statement, nothing observable differs)
